@@ -27,7 +27,7 @@ CLAIMED = {
         "passes (an exact iff), for arbitrary lists/active gateway/enforcement and both directions; the gateway memo never blocks an "
         "allowed id after any look-up history (partial: except the hard-coded 01:000001, refuted with a witness). Tie: the model is "
         "evaluated on the same configurations x address pairs as real ReadProtocol/PortProtocol objects (all 10x10x2 combinations per "
-        "configuration), real packets/commands through pkt_received/send_cmd, and look-up histories through a real Gateway.",
+        "configuration), real packets/commands through pkt_received/send_cmd, and look-up histories through a real Gateway. Oracle O5: after a cache RESTORE (which relaxes the known list for its own temporary protocol when the list names no gateway) no unlisted / blocked id of the cache has given rise to a device and look-ups are filtered as before.",
         "Trusted: Coq kernel, harness, CPython. Modelled not verified: ids as integers, logging side effects ignored, the dispatcher's "
         "handling of LookupError is exercised only end-to-end (oracle). Open finding: 01:000001 hard-coded as unwanted.",
         "6 (C10)",
@@ -316,7 +316,7 @@ CLAIMED = {
         "IsInIdle.cmd_sent -> WantEcho.pkt_rcvd -> WantRply.pkt_rcvd on a recording stand-in context, and the rule as the model states it "
         "is compared with each of those decisions (a correspondence of its own); that constructors' payloads put the context at the "
         "modelled positions is C03's subject. Tie: ~1000 (thorough ~5000) frames of every code x verb x 3 address shapes x 14 device types: model header and "
-        "rx_header = Packet._hdr and pkt_header(rx_header=True), incl. the raising cases.",
+        "rx_header = Packet._hdr and pkt_header(rx_header=True), incl. the raising cases. Oracle, end to end: a real PortProtocol with the known list enforced (the placeholder 18:000730 not listed) and a dongle that rewrites the first address only -- frames whose echo still carries the placeholder are recognised as echoes, an ordinary request gets its reply.",
         "Trusted: Coq kernel, translator (tables), harness. Modelled not verified: addresses as (type, number); AssertionError inside "
         "_has_array as 'no context' (pkt_header's except clause).",
         "6 (C06)",
